@@ -99,7 +99,9 @@ Known(m) == m.k # "unknown"
 Key(m)   == <<m.g, IF m.k = "fqdn" THEN 0 ELSE m.id>>
 Missing(maps) == {p \in DOMAIN db \ selfs : ~\E m \in Rng(maps) : Known(m) /\ Key(m) = p /\ m.v = db[p]}
 Wrong(maps)   == {m \in Rng(maps) : Known(m) /\ Key(m) \in DOMAIN db /\ m.v # db[Key(m)]}
-Phantom(maps) == {m \in Rng(maps) : IF Known(m) THEN Key(m) \notin seen \cup {Sys} ELSE ~m.inc}
+(* listed although it occurred neither as a token of the content (seen), nor textually in it (m.inc: e.g. an   *)
+(* address that only arises from a token and its neighbouring digit), nor is the system's own name          *)
+Phantom(maps) == {m \in Rng(maps) : ~m.inc /\ ~(Known(m) /\ Key(m) \in seen \cup {Sys})}
 ReportOK ==
     /\ Missing(Ev.maps) = {} /\ Wrong(Ev.maps) = {}     \* ReportExact
     /\ Phantom(Ev.maps) = {}                            \* NoPhantom
